@@ -102,6 +102,17 @@ def run(chk):
         cut = r.choice(nl[:-1]) if len(nl) > 1 else len(toks)
         files = ["file part1.yar " + hx(toks[:cut].encode()), "file part2.yar " + hx(toks[cut:].encode())]
         cases.append(("D%d" % i, files + ["newcompiler", "add " + hx(b'include "part1.yar"\ninclude "part2.yar"\n'), "getrules", "scanner 0"] + scans))
+        # E/F: global rules constrain the rules of their own namespace only, however the namespace's text is handed over:
+        # namespace nsB = a global gate rule + target, in one add call (E) or in two add calls with another namespace in between
+        # and before it (F); the gate is false on some of the buffers
+        gate = "global rule gate { condition: filesize > %d }\n" % r.choice([20, 40, 60])
+        other_gate = "global rule ogate { condition: filesize < 1 }\n" if r.chance(1, 2) else ""
+        first = others[0] if others else "rule o0 { condition: true }\n"
+        cases.append(("E%d" % i, ["newcompiler", "ns nsA", "add " + hx((imp + other_gate + first).encode()), "ns nsB", "add " + hx((gate + target).encode()),
+                                  "getrules", "scanner 0"] + scans))
+        cases.append(("F%d" % i, ["newcompiler", "ns nsA", "add " + hx((imp + other_gate + first).encode()), "ns nsB", "add " + hx(gate.encode()),
+                                  "ns nsA", "add " + hx(b"rule later { condition: true }\n"), "ns nsB", "add " + hx(target.encode()),
+                                  "getrules", "scanner 0"] + scans))
         meta[i] = (target, others, bufs, imp)
     out, err = vlib.run_cases(hscan, cases, timeout=3000)
     agree = 0
@@ -133,6 +144,25 @@ def run(chk):
                     break
             if bad:
                 break
+        if not bad:
+            le = [l for l in out.get("E%d" % i, []) if l.startswith("scan msgs=")]
+            lf = [l for l in out.get("F%d" % i, []) if l.startswith("scan msgs=")]
+            if len(le) != len(bufs) or len(lf) != len(bufs):
+                chk.violation("run", "namespace variants did not run: %s / %s" % (out.get("E%d" % i, [])[-2:], out.get("F%d" % i, [])[-2:]),
+                              {"target": target, "others": others}, found_input=False)
+                bad = True
+            else:
+                for bi in range(len(bufs)):
+                    re_, rf = rule_result(le[bi], "target", "nsB"), rule_result(lf[bi], "target", "nsB")
+                    if re_ != rf:
+                        chk.violation("company:namespace-split", "rule nsB:target with its namespace compiled in one add call: %s ; in two add calls with another "
+                                      "namespace in between: %s" % (re_, rf),
+                                      {"target": target, "first": others[:1], "buffer_hex": hx(bufs[bi]), "whole": le[bi][:300], "split": lf[bi][:300],
+                                       "how": "h_scan cases E/F of checks/c05.py: ns nsA; add ..; ns nsB; add gate(+target); [ns nsA; add ..; ns nsB; add target]"})
+                        bad = True
+                        break
+                    if re_ and re_[0] == "N" and res["A"][bi] and res["A"][bi][0] == "M":
+                        chk.add("gate_false_target_true")
         if not bad:
             agree += 1
             nontriv.add((len(others), tuple(x[0] if x else "?" for x in res["A"])))
